@@ -11,6 +11,8 @@ open Cppcheck.Trunc (truncateIntValue)
 C01 line-protocol driver.  ops (stage 1, transfer functions):
   calc <op> <x> <y>                 calculate<bigint>(op, x, y, &error)          -> ok:<r> | err
   calcn <op> <x> <y>                calculate<int>(op, x, y) (no error pointer)   -> <r>
+  carryops                          operator list of the impossible-value guard of isWritable -> +=|-=|…
+  carry <op> <k> <v>                carryImpossible                                -> <v'> | none
   cast <v> <signed> <bit>           castValue                                      -> <r> | undefined
   trunc <v> <size> <signed>         truncateIntValue                               -> <r> | undefined
   infer <op> <values…> / <values…>  infer(makeIntegralInferModel(), …)             -> <values…> | -
@@ -254,6 +256,14 @@ def step (line : String) : String :=
       | some r => "ok:" ++ toString r
       | none => "err"
     | _, _, _ => "bad-op"
+  | ["carryops"] => "|".intercalate carryOps
+  | ["carry", op, k, v] =>
+    match k.toInt?, v.toInt? with
+    | some k, some v =>
+      match carryImpossible op k v with
+      | some r => toString r
+      | none => "none"
+    | _, _ => "bad-op"
   | ["calcn", op, x, y] =>
     match Op.ofString op, x.toInt?, y.toInt? with
     | some op, some x, some y => toString (calculateNoErr op x y)
